@@ -149,6 +149,7 @@ def check_notation(rep, ex, cross):
     ex.overrides.append((re.compile(r'^format_exponential$'), tag('EXP')))
     ex.overrides.append((re.compile(r'^format_decimal$'), tag('DEC')))
     ex.overrides.append((re.compile(r'^fmt::format$'), tag('INT')))
+    ex.overrides.append((re.compile(r'^format_integer$'), tag('INT')))
     st = State()
     x = z3.FP('n2s_x', F64)
     ex.call_function(st, 'value::number_to_string', [Float(x)])
@@ -207,6 +208,66 @@ def range_contains(ex, st, call):
         return None
     ex.models_used.add('Range::<f64>::contains')
     return ex.ret(st, call, Bool(z3.And(z3.fpLEQ(lo.e, x.e), z3.fpLT(x.e, hi.e))))
+
+
+def js_number_to_string(x):
+    """Number::toString(x) of ECMAScript (radix 10), from Python's shortest round-trip repr - an independent implementation of the digits"""
+    from decimal import Decimal
+    if x != x:
+        return 'NaN'
+    if x in (float('inf'), float('-inf')):
+        return 'Infinity' if x > 0 else '-Infinity'
+    if x == 0:
+        return '0'
+    sign, digits, exp = Decimal(repr(abs(x))).as_tuple()
+    digits = list(digits)
+    while len(digits) > 1 and digits[-1] == 0:
+        digits.pop()
+        exp += 1
+    ds = ''.join(str(d) for d in digits)
+    k = len(ds)
+    n = exp + k
+    if k <= n <= 21:
+        out = ds + '0' * (n - k)
+    elif 0 < n <= 21:
+        out = ds[:n] + '.' + ds[n:]
+    elif -6 < n <= 0:
+        out = '0.' + '0' * (-n) + ds
+    else:
+        e = n - 1
+        out = (ds if k == 1 else ds[0] + '.' + ds[1:]) + 'e' + ('+' if e >= 0 else '-') + str(abs(e))
+    return ('-' if x < 0 else '') + out
+
+
+def check_digits_concrete(rep):
+    """replay route: number_to_string on boundary values and seeded random doubles of every magnitude against js_number_to_string"""
+    import random
+    import struct
+    rnd = random.Random(rep.seed + 15)
+    xs = [123456789012345680000.0, 999999999999999900000.0, 1e21, 1e100, 1e300, 1.2345e-7, 123456789e15, 1.7976931348623157e308, 5e-324, 2.2250738585072014e-308,
+          1e-6, 1e-7, 0.000001234, 123.456, -1.5e-10, -2.5e25, 4294967296.0, 9007199254740993.0, 0.1, 1 / 3, 100.0, 1e20, 12345678901234567890.0, -1e21, 1.5e-7]
+    for _ in range(120 if rep.tier == 'quick' else 1200):
+        bits = rnd.getrandbits(64)
+        x = struct.unpack('<d', struct.pack('<Q', bits))[0]
+        if x == x and x not in (float('inf'), float('-inf')):
+            xs.append(x)
+    for _ in range(40 if rep.tier == 'quick' else 400):
+        xs.append(float(rnd.randint(1, 10 ** rnd.randint(1, 22))))
+        xs.append(rnd.random() * 10 ** rnd.randint(-12, 25))
+    reqs = [{'cmd': 'number_to_string', 'bits': '%016x' % struct.unpack('<Q', struct.pack('<d', x))[0]} for x in xs]
+    outs = driver.replay(reqs)
+    bad = []
+    for x, o in zip(xs, outs):
+        rep.validated += 1
+        want = js_number_to_string(x)
+        if o.get('out') != want:
+            bad.append((x, o.get('out'), want))
+    if bad and not rep.seen('C15/number_to_string/digits'):
+        x, got, want = bad[0]
+        p = rep.write_replay('digits', {'cmd': 'number_to_string', 'bits': '%016x' % struct.unpack('<Q', struct.pack('<d', x))[0], 'observed': got, 'expected': want,
+                                        'others': [(repr(a), b, c) for a, b, c in bad[1:8]], 'wrong_of': '%d of %d' % (len(bad), len(xs))})
+        rep.violation('C15/number_to_string/digits', 'number_to_string(%r) = %r, ECMAScript Number::toString gives %r (%d of %d vectors differ)' % (x, got, want, len(bad), len(xs)), p)
+    rep.sample({'kernel': 'number_to_string digits (replay route)', 'vectors': len(xs), 'differing': len(bad)})
 
 
 JS_WS = [0x9, 0xA, 0xB, 0xC, 0xD, 0x20, 0xA0, 0x1680] + list(range(0x2000, 0x200B)) + [0x2028, 0x2029, 0x202F, 0x205F, 0x3000, 0xFEFF]
@@ -287,6 +348,7 @@ def run(rep):
     check_notation(rep, ex3, cross)
     rep.absorb(ex3)
     check_whitespace(rep, cross)
+    check_digits_concrete(rep)
     rep.cross = driver.cross_check(cross, 300, 'ALL', rep.tier, rep.seed)
     rep.extra['cross_checked_obligations'] = len(cross)
 
